@@ -89,10 +89,10 @@ Proof. exact scaled_of_pixels. Qed.
 Theorem C02_pixels_of_scaled : forall g H W sy sx oy ox, sy <> 0 -> sx <> 0 ->
   @grid_pixels_2d_slim_from ROps (@grid_scaled_2d_slim_from ROps g (H, W) (sy, sx) (oy, ox)) (H, W) (sy, sx) (oy, ox) = g.
 Proof. exact pixels_of_scaled. Qed.
-Theorem C02_centres_are_floor_of_pixels : forall g sh s o,
-  Forall (fun p => 0 <= fst p /\ 0 <= snd p) (@grid_pixels_2d_slim_from ROps g sh s o) ->
-  @grid_pixel_centres_2d_slim_from ROps g sh s o =
-  map (fun p => (IZR (Rfloor (fst p)), IZR (Rfloor (snd p)))) (@grid_pixels_2d_slim_from ROps g sh s o).
+Theorem C02_centres_are_floor_of_pixels : forall g H W sy sx oy ox, sy <> 0 -> sx <> 0 ->
+  Forall (fun p => 0 <= fst p /\ 0 <= snd p) (@grid_pixels_2d_slim_from ROps g (H, W) (sy, sx) (oy, ox)) ->
+  @grid_pixel_centres_2d_slim_from ROps g (H, W) (sy, sx) (oy, ox) =
+  map (fun p => (IZR (Rfloor (fst p)), IZR (Rfloor (snd p)))) (@grid_pixels_2d_slim_from ROps g (H, W) (sy, sx) (oy, ox)).
 Proof. exact centres_are_floor_of_pixels. Qed.
 
 (* ---- 6. shape-based mask constructors: pixel (i,j) is unmasked iff its centre, measured relative to the mask origin
@@ -134,15 +134,19 @@ Theorem C02_elliptical_annular_exact : forall H W sy sx Ri qi ai Ro qo ao cy cx,
 Proof. exact elliptical_annular_R_is_spec. Qed.
 (* the executable form run against the implementation (Model/C02x.v: the angle enters as its (cos, sin) pair) is the
    generated code, for every angle: the angle-addition step is proved, not assumed *)
-Theorem C02_elliptical_executable_model : forall sh s R q angle c,
-  mask_2d_elliptical_from sh s R q angle c =
-  @mask_2d_elliptical_from_cs ROps sh s R q (cos (angle * PI / 180), sin (angle * PI / 180)) c.
+Theorem C02_elliptical_executable_model : forall H W sy sx R q angle cy cx, sy <> 0 -> sx <> 0 -> q <> 0 ->
+  mask_2d_elliptical_from (H, W) (sy, sx) R q angle (cy, cx) =
+  @mask_2d_elliptical_from_cs ROps (H, W) (sy, sx) R q (cos (angle * PI / 180), sin (angle * PI / 180)) (cy, cx).
 Proof. exact elliptical_R_is_cs. Qed.
-Theorem C02_elliptical_annular_executable_model : forall sh s Ri qi ai Ro qo ao c,
-  mask_2d_elliptical_annular_from sh s Ri qi ai Ro qo ao c =
-  @mask_2d_elliptical_annular_from_cs ROps sh s Ri qi (cos (ai * PI / 180), sin (ai * PI / 180)) Ro qo
-                                       (cos (ao * PI / 180), sin (ao * PI / 180)) c.
+Theorem C02_elliptical_annular_executable_model : forall H W sy sx Ri qi ai Ro qo ao cy cx,
+  sy <> 0 -> sx <> 0 -> qi <> 0 -> qo <> 0 ->
+  mask_2d_elliptical_annular_from (H, W) (sy, sx) Ri qi ai Ro qo ao (cy, cx) =
+  @mask_2d_elliptical_annular_from_cs ROps (H, W) (sy, sx) Ri qi (cos (ai * PI / 180), sin (ai * PI / 180)) Ro qo
+                                       (cos (ao * PI / 180), sin (ao * PI / 180)) (cy, cx).
 Proof. exact elliptical_annular_R_is_cs. Qed.
+Theorem C02_elliptical_radius_executable_model : forall y x angle q,
+  elliptical_radius_from y x angle q = @elliptical_radius_from_cs ROps y x (cos (angle * PI / 180), sin (angle * PI / 180)) q.
+Proof. exact elliptical_radius_R_is_cs. Qed.
 Theorem C02_polar_form : forall y x, let r := sqrt (x * x + y * y) in r * cos (atan2R y x) = x /\ r * sin (atan2R y x) = y.
 Proof. exact polar. Qed.
 
@@ -212,4 +216,5 @@ Print Assumptions C02_elliptical_exact.
 Print Assumptions C02_elliptical_annular_exact.
 Print Assumptions C02_elliptical_executable_model.
 Print Assumptions C02_elliptical_annular_executable_model.
+Print Assumptions C02_elliptical_radius_executable_model.
 Print Assumptions C02_polar_form.
